@@ -1018,6 +1018,14 @@ def _finalize_fairy(
             if connection_record:
                 connection_record.invalidate(e=e)
             if not isinstance(e, Exception):
+                # an exit exception such as asyncio.CancelledError is
+                # propagated, but the (now invalidated) record still has to
+                # go back to the pool, otherwise its slot is lost for good
+                if (
+                    connection_record
+                    and connection_record.fairy_ref is not None
+                ):
+                    connection_record.checkin()
                 raise
         finally:
             if detach and is_gc_cleanup and dont_restore_gced:
